@@ -42,6 +42,18 @@ type Obj struct {
 	C  int    `json:"c"`
 	H  int    `json:"h"` // 0 = no hash
 	LO bool   `json:"lo"`
+	// PMI is the primary modify index a federation state of the secondary remembers (0 for everything else)
+	PMI uint64 `json:"pmi"`
+}
+
+// Fault is a fault of the fetch-updated step of an ACL round: the batch read is answered by a lagging server of
+// the primary that still has an OLDER version of one listed object (stale, content OC) or does not have it at all
+// (omit; Mod = the object was modified after its creation, so its listed modify index differs from its create index).
+type Fault struct {
+	T   string `json:"t"` // none | stale | omit
+	ID  int    `json:"id"`
+	OC  int    `json:"oc"`
+	Mod bool   `json:"mod"`
 }
 
 // Case is the abstract input: mi/last are abstract (small) numbers, scaled by IndexScale.
@@ -54,6 +66,10 @@ type Case struct {
 	InR   []Obj  `json:"inR"`   // remote listing in arrival order (id 0 = legacy entries of the primary)
 	Order string `json:"order"` // config/fed: "given" = feed the local listing in InL order (standalone diff only), else store order
 	Seed  int64  `json:"seed"`  // permutation of the listings the primary returns during the real round
+	// Back: the primary's index went backwards (it was rebuilt / restored from an older snapshot): its table index
+	// stays below lastRemoteIndex, no Consistent assumption holds
+	Back  bool  `json:"back"`
+	Fault Fault `json:"fault"`
 }
 
 // Cmd is one raft command the real round submitted to the secondary.
@@ -84,7 +100,15 @@ type Event struct {
 	Writes   int    `json:"writes"` // raft commands submitted to the secondary
 	Cmds     []Cmd  `json:"cmds"`   // ... in submission order, recorded from the real round
 	RIdx     uint64 `json:"ridx"`   // index the real round returned
-	Case     Case   `json:"case"`
+	PIdx     uint64 `json:"pidx"`   // index of the primary's table, i.e. the remote index the round sees
+	Fault    Fault  `json:"fault"`
+	Shape    string `json:"shape"` // none | stale | omit-new | omit-modified
+	// after a round with a fetch fault: a second, fault-free real round started from what the first one returned
+	Last2 uint64 `json:"last2"`
+	Err2  string `json:"err2"`
+	RIdx2 uint64 `json:"ridx2"`
+	Post2 []Obj  `json:"post2"`
+	Case  Case   `json:"case"`
 }
 
 // Perturb, when set (h-repl -perturb, used only by the self-test of the check), corrupts what the
@@ -128,6 +152,9 @@ func apply(f *fsm.FSM, t structs.MessageType, req any, idx uint64) (err error) {
 			err = fmt.Errorf("panic in FSM.Apply: %v", r)
 		}
 	}()
+	if idx == 0 {
+		return nil
+	}
 	buf, err := structs.Encode(t, req)
 	if err != nil {
 		return err
@@ -439,6 +466,7 @@ func (h hashTab) ofU64(v uint64) int {
 // ---------------------------------------------------------------- one round
 
 type round struct {
+	lag     *fsm.FSM // lagging server of the primary that answers the batch read (fetch fault), nil = none
 	node    *consul.VerifReplNode
 	c       Case
 	pri     *fsm.FSM
@@ -460,6 +488,55 @@ func writeOrder(objs []Obj) []Obj {
 
 func (r *round) nextSecIdx() uint64 { r.secIdx++; return r.secIdx }
 
+// bumpIndex: index of the unrelated write that lifts the primary's table index to at least lastRemoteIndex; when the
+// primary's index went backwards there is no such write.
+func (r *round) bumpIndex() uint64 {
+	if r.c.Back {
+		return 0 // apply() skips index 0
+	}
+	idx := r.ev.Last
+	for j, o := range writeOrder(r.c.InR) {
+		if o.ID != 0 && remoteMI(o.MI, j+1) > idx {
+			idx = remoteMI(o.MI, j+1) // the unrelated write is the latest one, indexes only grow
+		}
+	}
+	return idx
+}
+
+// oldVersionIndex is the index at which the earlier version of the faulted object was created.
+func oldVersionIndex(id int) uint64 { return uint64(5 + id) }
+
+// primaryWrites says, for the remote object o, which versions to write where:
+// old = content of an earlier version created at oldVersionIndex (0 = none), lagHasOld / lagHasNew = what the lagging
+// server holds.
+func (r *round) primaryWrites(o Obj) (old int, lagHasOld, lagHasNew bool) {
+	f := r.c.Fault
+	if f.T == "none" || f.T == "" || f.ID != o.ID {
+		return 0, false, true
+	}
+	switch f.T {
+	case "stale":
+		return f.OC, true, false
+	default: // omit
+		if f.Mod {
+			return f.OC, false, false
+		}
+		return 0, false, false
+	}
+}
+
+func (r *round) faultShape() string {
+	switch f := r.c.Fault; {
+	case f.T == "stale":
+		return "stale"
+	case f.T == "omit" && f.Mod:
+		return "omit-modified"
+	case f.T == "omit":
+		return "omit-new"
+	}
+	return "none"
+}
+
 func ids(l []int) []int {
 	if l == nil {
 		return []int{}
@@ -471,7 +548,16 @@ func ids(l []int) []int {
 func Run(node *consul.VerifReplNode, c Case) (ev *Event) {
 	r := &round{node: node, c: c, pri: NewFSM(), sec: NewFSM(), ht: hashTab{}, legacyC: map[string]int{}, secIdx: 10}
 	ev = &Event{Typ: c.Typ, Kind: c.Kind, Last: scaleLast(c.Last), Err: "none", Case: c,
-		Pre: []Obj{}, InL: []Obj{}, InR: []Obj{}, Post: []Obj{}, Dels: []int{}, Ups: []int{}, Cmds: []Cmd{}}
+		Pre: []Obj{}, InL: []Obj{}, InR: []Obj{}, Post: []Obj{}, Dels: []int{}, Ups: []int{}, Cmds: []Cmd{}, Post2: []Obj{}, Err2: "none"}
+	if c.Fault.T == "" {
+		c.Fault = Fault{T: "none"}
+		r.c.Fault = c.Fault
+	}
+	ev.Fault = c.Fault
+	ev.Shape = r.faultShape()
+	if c.Fault.T != "none" {
+		r.lag = NewFSM()
+	}
 	r.ev = ev
 	defer func() {
 		if p := recover(); p != nil {
@@ -504,6 +590,8 @@ func (r *round) fail(class string, err error) {
 	if r.ev.Err == "none" {
 		r.ev.Err, r.ev.ErrMsg = class, err.Error()
 		switch {
+		case strings.Contains(err.Error(), "stale data"):
+			r.ev.ErrClass = "stale-data"
 		case strings.Contains(err.Error(), "already exists"):
 			r.ev.ErrClass = "unique-name"
 		case strings.Contains(err.Error(), "cannot define subsets for external services"):
@@ -519,7 +607,16 @@ func (r *round) fail(class string, err error) {
 // primary store and records the raft commands it submitted, in order.
 func (r *round) realRound(extraLocal interface{}, pri *consul.VerifPrimary) {
 	pri.Store = r.pri.State()
-	pri.Shuffle = rand.New(rand.NewSource(r.c.Seed)).Shuffle
+	shuffle := rand.New(rand.NewSource(r.c.Seed)).Shuffle
+	pri.Shuffle = shuffle
+	if r.lag != nil {
+		// the listing is answered by an up-to-date server; every later RPC of the round (the batch read) by the
+		// lagging one: the stand-in endpoints read pri.Store at call time
+		pri.Shuffle = func(n int, swap func(i, j int)) {
+			shuffle(n, swap)
+			pri.Store = r.lag.State()
+		}
+	}
 	res, err := r.node.Round(r.c.Typ, r.sec, pri, extraLocal, r.ev.Last)
 	if err != nil {
 		r.fail("setup", err)
@@ -545,6 +642,36 @@ func (r *round) realRound(extraLocal interface{}, pri *consul.VerifPrimary) {
 	case failed != "":
 		r.fail(failed, fmt.Errorf("a raft command was rejected but the round reported success"))
 	}
+}
+
+// secondRound: after a round with a fetch fault, one more REAL round without fault, started with the index the
+// first round returned (or the old lastRemoteIndex when it returned an error, as Replicator.Run does).
+func (r *round) secondRound(extraLocal interface{}, pri *consul.VerifPrimary, list func() []Obj) {
+	if r.lag == nil || r.ev.Err == "setup" {
+		return
+	}
+	r.ev.Last2 = r.ev.Last
+	if r.ev.Err == "none" {
+		r.ev.Last2 = r.ev.RIdx
+	}
+	pri.Store = r.pri.State()
+	pri.Shuffle = rand.New(rand.NewSource(r.c.Seed + 1)).Shuffle
+	res, err := r.node.Round(r.c.Typ, r.sec, pri, extraLocal, r.ev.Last2)
+	switch {
+	case err != nil:
+		r.ev.Err2 = "setup: " + err.Error()
+	case res.Err != nil:
+		r.ev.Err2 = "round"
+	case res.Exit:
+		r.ev.Err2 = "exit"
+	}
+	for _, a := range res.Applied {
+		if a.Err != "" && r.ev.Err2 == "none" {
+			r.ev.Err2 = "apply"
+		}
+	}
+	r.ev.RIdx2 = res.RemoteIndex
+	r.ev.Post2 = list()
 }
 
 func (r *round) decodeCmd(a consul.VerifApplied) Cmd {
@@ -672,26 +799,46 @@ func (r *round) policies() error {
 		if o.ID == 0 {
 			continue
 		}
-		if err := apply(r.pri, structs.ACLPolicySetRequestType, &structs.ACLPolicyBatchSetRequest{Policies: structs.ACLPolicies{mkPolicy(o.ID, o.C)}}, remoteMI(o.MI, j+1)); err != nil {
+		set := func(f *fsm.FSM, c int, idx uint64) error {
+			return apply(f, structs.ACLPolicySetRequestType, &structs.ACLPolicyBatchSetRequest{Policies: structs.ACLPolicies{mkPolicy(o.ID, c)}}, idx)
+		}
+		old, lagOld, lagNew := r.primaryWrites(o)
+		if old != 0 {
+			if err := set(r.pri, old, oldVersionIndex(o.ID)); err != nil {
+				return err
+			}
+			if lagOld {
+				if err := set(r.lag, old, oldVersionIndex(o.ID)); err != nil {
+					return err
+				}
+			}
+		}
+		if err := set(r.pri, o.C, remoteMI(o.MI, j+1)); err != nil {
 			return err
+		}
+		if r.lag != nil && lagNew {
+			if err := set(r.lag, o.C, remoteMI(o.MI, j+1)); err != nil {
+				return err
+			}
 		}
 	}
 	// the primary's table index is at least lastRemoteIndex (it handed that index out earlier): an unrelated
 	// policy came and went at that index
 	bump := &structs.ACLPolicy{ID: aclID(98), Name: "zz-bump", Rules: ""}
 	bump.SetHash(true)
-	if err := apply(r.pri, structs.ACLPolicySetRequestType, &structs.ACLPolicyBatchSetRequest{Policies: structs.ACLPolicies{bump}}, r.ev.Last); err != nil {
+	if err := apply(r.pri, structs.ACLPolicySetRequestType, &structs.ACLPolicyBatchSetRequest{Policies: structs.ACLPolicies{bump}}, r.bumpIndex()); err != nil {
 		return err
 	}
-	if err := apply(r.pri, structs.ACLPolicyDeleteRequestType, &structs.ACLPolicyBatchDeleteRequest{PolicyIDs: []string{bump.ID}}, r.ev.Last); err != nil {
+	if err := apply(r.pri, structs.ACLPolicyDeleteRequestType, &structs.ACLPolicyBatchDeleteRequest{PolicyIDs: []string{bump.ID}}, r.bumpIndex()); err != nil {
 		return err
 	}
 	r.ev.Pre = r.listPolicies(r.sec)
 	// remote listing as ACL.PolicyList builds it: store list, Stub()
-	_, plist, err := r.pri.State().ACLPolicyList(nil, nil)
+	pidx, plist, err := r.pri.State().ACLPolicyList(nil, nil)
 	if err != nil {
 		return err
 	}
+	r.ev.PIdx = pidx
 	byID := map[string]*structs.ACLPolicy{}
 	for _, p := range plist {
 		byID[p.ID] = p
@@ -754,6 +901,9 @@ func (r *round) policies() error {
 			}
 		}
 		r.realRound(extra, &consul.VerifPrimary{ExtraPolicies: legacy})
+		r.ev.Post = r.listPolicies(r.sec)
+		r.secondRound(extra, &consul.VerifPrimary{ExtraPolicies: legacy}, func() []Obj { return r.listPolicies(r.sec) })
+		return nil
 	} else { // self-test only: the harness applies the corrupted diff itself
 		if len(res.LocalDeletes) > 0 {
 			r.harnessCmd("delete", r.ev.Dels, apply(r.sec, structs.ACLPolicyDeleteRequestType, &structs.ACLPolicyBatchDeleteRequest{PolicyIDs: res.LocalDeletes}, r.nextSecIdx()))
@@ -837,17 +987,18 @@ func (r *round) roles() error {
 	}
 	bump := &structs.ACLRole{ID: aclID(98), Name: "zz-bump"}
 	bump.SetHash(true)
-	if err := apply(r.pri, structs.ACLRoleSetRequestType, &structs.ACLRoleBatchSetRequest{Roles: structs.ACLRoles{bump}}, r.ev.Last); err != nil {
+	if err := apply(r.pri, structs.ACLRoleSetRequestType, &structs.ACLRoleBatchSetRequest{Roles: structs.ACLRoles{bump}}, r.bumpIndex()); err != nil {
 		return err
 	}
-	if err := apply(r.pri, structs.ACLRoleDeleteRequestType, &structs.ACLRoleBatchDeleteRequest{RoleIDs: []string{bump.ID}}, r.ev.Last); err != nil {
+	if err := apply(r.pri, structs.ACLRoleDeleteRequestType, &structs.ACLRoleBatchDeleteRequest{RoleIDs: []string{bump.ID}}, r.bumpIndex()); err != nil {
 		return err
 	}
 	r.ev.Pre = r.listRoles(r.sec)
-	_, plist, err := r.pri.State().ACLRoleList(nil, "", nil) // ACL.RoleList
+	pidx, plist, err := r.pri.State().ACLRoleList(nil, "", nil) // ACL.RoleList
 	if err != nil {
 		return err
 	}
+	r.ev.PIdx = pidx
 	byID := map[string]*structs.ACLRole{}
 	for _, p := range plist {
 		byID[p.ID] = p
@@ -954,7 +1105,10 @@ func (r *round) listTokens(f *fsm.FSM) []Obj {
 
 func (r *round) tokens() error {
 	c := r.c
-	for _, f := range []*fsm.FSM{r.pri, r.sec} {
+	for _, f := range []*fsm.FSM{r.pri, r.sec, r.lag} {
+		if f == nil {
+			continue
+		}
 		if err := apply(f, structs.ACLPolicySetRequestType, &structs.ACLPolicyBatchSetRequest{Policies: structs.ACLPolicies{linkPolicy()}}, 1); err != nil {
 			return err
 		}
@@ -968,23 +1122,43 @@ func (r *round) tokens() error {
 		if o.ID == 0 {
 			continue
 		}
-		if err := apply(r.pri, structs.ACLTokenSetRequestType, &structs.ACLTokenBatchSetRequest{Tokens: structs.ACLTokens{mkTokenReg(o.ID, o.C, false)}}, remoteMI(o.MI, j+1)); err != nil {
+		set := func(f *fsm.FSM, c int, idx uint64) error {
+			return apply(f, structs.ACLTokenSetRequestType, &structs.ACLTokenBatchSetRequest{Tokens: structs.ACLTokens{mkTokenReg(o.ID, c, false)}}, idx)
+		}
+		old, lagOld, lagNew := r.primaryWrites(o)
+		if old != 0 {
+			if err := set(r.pri, old, oldVersionIndex(o.ID)); err != nil {
+				return err
+			}
+			if lagOld {
+				if err := set(r.lag, old, oldVersionIndex(o.ID)); err != nil {
+					return err
+				}
+			}
+		}
+		if err := set(r.pri, o.C, remoteMI(o.MI, j+1)); err != nil {
 			return err
+		}
+		if r.lag != nil && lagNew {
+			if err := set(r.lag, o.C, remoteMI(o.MI, j+1)); err != nil {
+				return err
+			}
 		}
 	}
 	bump := mkToken(98, 1, false)
-	if err := apply(r.pri, structs.ACLTokenSetRequestType, &structs.ACLTokenBatchSetRequest{Tokens: structs.ACLTokens{bump}}, r.ev.Last); err != nil {
+	if err := apply(r.pri, structs.ACLTokenSetRequestType, &structs.ACLTokenBatchSetRequest{Tokens: structs.ACLTokens{bump}}, r.bumpIndex()); err != nil {
 		return err
 	}
-	if err := apply(r.pri, structs.ACLTokenDeleteRequestType, &structs.ACLTokenBatchDeleteRequest{TokenIDs: []string{bump.AccessorID}}, r.ev.Last); err != nil {
+	if err := apply(r.pri, structs.ACLTokenDeleteRequestType, &structs.ACLTokenBatchDeleteRequest{TokenIDs: []string{bump.AccessorID}}, r.bumpIndex()); err != nil {
 		return err
 	}
 	r.ev.Pre = r.listTokens(r.sec)
 	// ACL.TokenList with IncludeLocal=false, IncludeGlobal=true, then Stub()
-	_, plist, err := r.pri.State().ACLTokenList(nil, false, true, "", "", "", nil, nil)
+	pidx, plist, err := r.pri.State().ACLTokenList(nil, false, true, "", "", "", nil, nil)
 	if err != nil {
 		return err
 	}
+	r.ev.PIdx = pidx
 	byID := map[string]*structs.ACLToken{}
 	for _, p := range plist {
 		byID[p.AccessorID] = p
@@ -1049,6 +1223,9 @@ func (r *round) tokens() error {
 			}
 		}
 		r.realRound(extra, &consul.VerifPrimary{ExtraTokens: legacy})
+		r.ev.Post = r.listTokens(r.sec)
+		r.secondRound(extra, &consul.VerifPrimary{ExtraTokens: legacy}, func() []Obj { return r.listTokens(r.sec) })
+		return nil
 	} else { // self-test only
 		if len(res.LocalDeletes) > 0 {
 			r.harnessCmd("delete", r.ev.Dels, apply(r.sec, structs.ACLTokenDeleteRequestType, &structs.ACLTokenBatchDeleteRequest{TokenIDs: res.LocalDeletes}, r.nextSecIdx()))
@@ -1107,12 +1284,13 @@ func (r *round) configs() error {
 		return err
 	}
 	for _, op := range []structs.ConfigEntryOp{structs.ConfigEntryUpsert, structs.ConfigEntryDelete} {
-		if err := apply(r.pri, structs.ConfigEntryRequestType, &structs.ConfigEntryRequest{Op: op, Datacenter: "dc1", Entry: bump}, r.ev.Last); err != nil {
+		if err := apply(r.pri, structs.ConfigEntryRequestType, &structs.ConfigEntryRequest{Op: op, Datacenter: "dc1", Entry: bump}, r.bumpIndex()); err != nil {
 			return err
 		}
 	}
 	_, r.ev.Pre = r.listConfigs(r.sec)
 	plist, _ := r.listConfigs(r.pri) // ConfigEntry.ListAll
+	r.ev.PIdx, _, _ = r.pri.State().ConfigEntries(nil, structs.ReplicationEnterpriseMeta())
 	byID := map[int]structs.ConfigEntry{}
 	for _, e := range plist {
 		byID[cfgIDOf(e.GetKind(), e.GetName())] = e
@@ -1181,7 +1359,7 @@ func (r *round) configs() error {
 // ---------------------------------------------------------------- federation states
 
 func (r *round) projFed(s *structs.FederationState) Obj {
-	return Obj{ID: revFed(s.Datacenter), MI: s.ModifyIndex, C: contentClass(s), H: 0}
+	return Obj{ID: revFed(s.Datacenter), MI: s.ModifyIndex, C: contentClass(s), H: 0, PMI: s.PrimaryModifyIndex}
 }
 
 func (r *round) listFeds(f *fsm.FSM) ([]*structs.FederationState, []Obj) {
@@ -1208,7 +1386,7 @@ func (r *round) feds() error {
 	c := r.c
 	for _, o := range c.Sec {
 		s := mkFed(o.ID, o.C)
-		s.PrimaryModifyIndex = 7
+		s.PrimaryModifyIndex = r.ev.Last - 10 // replicated earlier, shortly before lastRemoteIndex
 		req := &structs.FederationStateRequest{Op: structs.FederationStateUpsert, Datacenter: "dc2", State: s}
 		if err := apply(r.sec, structs.FederationStateRequestType, req, r.nextSecIdx()); err != nil {
 			return err
@@ -1222,13 +1400,14 @@ func (r *round) feds() error {
 	}
 	for _, op := range []structs.FederationStateOp{structs.FederationStateUpsert, structs.FederationStateDelete} {
 		bump := &structs.FederationState{Datacenter: "zz-bump", UpdatedAt: baseTime}
-		if err := apply(r.pri, structs.FederationStateRequestType, &structs.FederationStateRequest{Op: op, Datacenter: "dc1", State: bump}, r.ev.Last); err != nil {
+		if err := apply(r.pri, structs.FederationStateRequestType, &structs.FederationStateRequest{Op: op, Datacenter: "dc1", State: bump}, r.bumpIndex()); err != nil {
 			return err
 		}
 	}
 	slist, pre := r.listFeds(r.sec)
 	r.ev.Pre = pre
 	plist, _ := r.listFeds(r.pri) // FederationState.List
+	r.ev.PIdx, _, _ = r.pri.State().FederationStateList(nil)
 	byID := map[int]*structs.FederationState{}
 	for _, s := range plist {
 		byID[revFed(s.Datacenter)] = s
